@@ -370,7 +370,37 @@ func ruleRowCache(p *Prog, r *Result) {
 			}
 			ctx := ssa.Value(fn.Params[1])
 			okv := clearedBefore(fn, fetch, ctx, nil)
-			r.add(okv, "ProjectionPlan."+mn+"|clear-first", p.InstrPos(fetch), "the projection clears the context (a plain call, on every path) before fetching from its child")
+			if !okv && mn == "Next" {
+				// row mode: it is enough that every child hands out a row only after FilterExec.Filter ran on it with
+				// the same context (Filter clears the per-row cache before evaluating)
+				if ff := p.MethodByName("FilterExec", "Filter"); ff != nil && clearsFirst(ff, 2) {
+					all, any := true, false
+					for _, t := range p.readerPlans() {
+						cn := p.Method(t, "Next")
+						if cn == nil || len(cn.Params) < 2 {
+							continue
+						}
+						for _, b := range cn.Blocks {
+							ret := retOf(b)
+							if ret == nil || len(ret.Results) < 2 || isNilConst(retVal(ret, 0)) {
+								continue
+							}
+							any = true
+							dom := false
+							allInstrs(cn, func(in ssa.Instruction) {
+								if c := isStaticCallTo(in, ff); c != nil && len(c.Call.Args) >= 3 && c.Call.Args[2] == ssa.Value(cn.Params[1]) && instrDominates(c, ret) {
+									dom = true
+								}
+							})
+							if !dom {
+								all = false
+							}
+						}
+					}
+					okv = all && any
+				}
+			}
+			r.add(okv, "ProjectionPlan."+mn+"|clear-first", p.InstrPos(fetch), "the projection starts from a clean per-row cache: it clears the context before fetching from its child (row mode: or every child filters each row it hands out with the same context, which clears it)")
 		}
 	} else {
 		r.undecided("anchor: ProjectionPlan not found")
